@@ -16,6 +16,7 @@ import CB.Model.Karatsuba
 import CB.Model.ModArith
 import CB.Model.Sqrt
 import CB.Model.Div
+import CB.Model.Gcd
 namespace CB
 namespace D15
 open CB CB.Cmp CB.AddSub
@@ -421,6 +422,117 @@ def shiftFam (name : String) (n a : Nat) (ps : List Nat) : Option String :=
     fam (rep 6 (limbsHex (uselect x y m), h r0) ++ rep 3 (limbsHexLen (uselect x y m), hl r0))
   | _, _ => none
 
+
+/-- `c15.bm.<family> na a nb b`: boxed operands of two precisions; L0 carries the DOCUMENTED result precision:
+    add / sub / bit operators "the widest input", `mul` the sum, `wrapping_mul` / `checked_mul` the width of self,
+    `gcd` the larger precision (comment in src/uint/boxed/gcd.rs) -/
+def mixedFam (name : String) (na a nb b : Nat) : Option String :=
+  let x := toLimbs na a; let y := toLimbs nb b
+  let k := max na nb
+  let m := B ^ k
+  let hk := lenHex k
+  match name with
+  | "add" =>
+    let s := (a + b) % m
+    let ra := badc x y 0
+    let fits := a + b < m
+    fam (rep 4 (limbsHexLen ra.1, hk s) ++ [(limbsHexLen (badc y x 0).1, hk s),
+      (if fromWordEq ra.2 0 = WMAX then limbsHexLen ra.1 else "none", if fits then hk (a + b) else "none")]
+      ++ rep 4 (pLen (boxedOpAdd x y), if fits then hk (a + b) else "panic"))
+  | "sub" =>
+    let s := (a + m - b) % m
+    let rs := bsbb x y 0
+    let fits := b ≤ a
+    fam (rep 4 (limbsHexLen rs.1, hk s) ++ [
+      (if fromWordEq rs.2 0 = WMAX then limbsHexLen rs.1 else "none", if fits then hk (a - b) else "none")]
+      ++ rep 4 (pLen (boxedOpSub x y), if fits then hk (a - b) else "panic"))
+  | "and" =>
+    fam (rep 9 (limbsHexLen (Bits.mapLimbs (· &&& ·) x y), hk (a &&& b)) ++ [(limbsHexLen (Bits.mapLimbs (· &&& ·) y x), hk (a &&& b))])
+  | "or" =>
+    fam (rep 5 (limbsHexLen (Bits.mapLimbs (· ||| ·) x y), hk (a ||| b)) ++ rep 2 (limbsHexLen (Bits.orAssign x y), hk (a ||| b))
+      ++ rep 2 (limbsHexLen (Bits.mapLimbs (· ||| ·) x y), hk (a ||| b)) ++ [(limbsHexLen (Bits.mapLimbs (· ||| ·) y x), hk (a ||| b))])
+  | "xor" =>
+    fam (rep 9 (limbsHexLen (Bits.mapLimbs (· ^^^ ·) x y), hk (a ^^^ b)) ++ [(limbsHexLen (Bits.mapLimbs (· ^^^ ·) y x), hk (a ^^^ b))])
+  | "cmp" =>
+    let o := ordTok (natOrd a b)
+    let fromCt (lt gt : Nat) : String := if lt = WMAX then "lt" else if gt = WMAX then "gt" else "eq"
+    fam [(ordTok (bcmp x y), o), (ordTok (bcmp x y), o), (ordTok (-(bcmp y x)), o), (fromCt (bctLt x y) (bctGt x y), o),
+         (if bctEq x y = 1 then "eq" else if bcmp x y < 0 then "lt" else "gt", o),
+         (if bctEq x y = 1 then "eq" else if bctGt y x = WMAX then "lt" else "gt", o)]
+  | "mul" =>
+    let p := a * b
+    let w0 := lenHex (na + nb) p
+    let ka := B ^ na
+    fam ([(limbsHexLen (Karatsuba.boxedMul x y), w0), (limbsHexLen (Karatsuba.boxedMul y x), w0)]
+      ++ rep 7 (limbsHexLen (Karatsuba.boxedMul x y), w0)
+      ++ rep 2 (limbsHexLen (Karatsuba.boxedWrappingMul x y), lenHex na (p % ka))
+      ++ [(mLen (Karatsuba.boxedCheckedMul x y), if p < ka then lenHex na p else "none"),
+          (let c := Karatsuba.boxedCheckedMul x y
+           if c.2 = WMAX then limbsHexLen c.1 else if c.2 = 0 then "panic" else "badchoice", w0)])
+  | "gcd" =>
+    let g := hk (Nat.gcd a b)
+    fam [(pLen (Gcd.boxedGcd x y), g), (pLen (Gcd.boxedGcdVartime x y), g),
+         (pLen (Gcd.boxedGcd y x), g), (pLen (Gcd.boxedGcdVartime y x), g)]
+  | _ => none
+
+/-- L0 for inversion mod 2^k -/
+def specInv2k (a k : Nat) : Option Nat :=
+  if k = 0 then some 0 else if a % 2 = 1 then Gcd.specInv (a % 2 ^ k) (2 ^ k) else none
+
+def fixedInv (vartime : Bool) (n a m : Nat) : SafeGcd.InvOut :=
+  let inv := SafeGcd.Inverter.new n (toLimbs n m) (toLimbs n 1)
+  if vartime then inv.invVartime n (toLimbs n a) else inv.inv n (toLimbs n a)
+def invOutOpt (o : SafeGcd.InvOut) : Option Nat := if o.isSome then some (val o.value) else none
+/-- boxed inverter; `none` = the `assert!(!is_negative)` panic of `BoxedUnsatInt::to_uint` -/
+def boxedInv (vartime : Bool) (a m : List Nat) : Option (Option Nat) :=
+  let o := (SafeGcd.Inverter.newBoxed m [1]).invBoxed vartime a
+  if o.negative then none else some (invOutOpt o)
+
+/-- `c15.inv_mod2k n a k`, `c15.inv_odd_mod n a m`, `c15.gcd n a b` -/
+def invFam (name : String) (n a p : Nat) : Option String :=
+  let h := natToHex
+  let hl := lenHex n
+  let oh (o : Option Nat) : String := match o with | some v => h v | none => "none"
+  let ol (o : Option Nat) : String := match o with | some v => hl v | none => "none"
+  match name with
+  | "inv_mod2k" =>
+    let w := 64 * n
+    let ct := InvMod2k.invMod2k w a p
+    let e := specInv2k a p
+    let vb := InvMod2k.invMod2kVartimeBoxed w a p
+    fam [(oh (if ct.2 then some ct.1 else none), oh e),
+         (match InvMod2k.invMod2kVartime w a p with
+           | none => "panic" | some r => oh (if r.2 then some r.1 else none), oh e),
+         (ol (if ct.2 then some ct.1 else none), ol e), (ol (if vb.2 then some vb.1 else none), ol e)]
+  | "inv_odd_mod" =>
+    let e := Gcd.specInv a p
+    let one := invOutOpt (fixedInv false n a p)
+    let rTok : InvMod2k.R → String := fun r => match r with | .panic => "panic" | .none => "none" | .some x => h x
+    let rLen : InvMod2k.R → String := fun r => match r with | .panic => "panic" | .none => "none" | .some x => hl x
+    let gen := InvMod2k.invModWith (fun a s => invOutOpt (fixedInv false n a s)) (64 * n) a p
+    let bo (vt : Bool) : String := match boxedInv vt (toLimbs n a) (toLimbs n p) with
+      | none => "panic" | some r => ol r
+    let bval : Nat → Nat → Option Nat := fun a s => match boxedInv false (toLimbs n a) (toLimbs n s) with
+      | some r => r | none => none
+    let bgen : String := match boxedInv false (toLimbs n a) (toLimbs n p) with
+      | none => "panic" | some _ => rLen (InvMod2k.invModBoxedWith bval (64 * n) a p)
+    let rs (e : Option Nat) : List Route :=
+        [(oh one, oh e), (oh (invOutOpt (fixedInv false n a p)), oh e), (oh (invOutOpt (fixedInv true n a p)), oh e),
+         (rTok gen, oh e), (rTok gen, oh e),
+         (bo false, ol e), (bo false, ol e), (bo true, ol e), (bgen, ol e), (bgen, ol e)]
+    -- modulus 1: every x is an inverse and C10's range clause binds only for m ≥ 2; C15 demands that all routes
+    -- return the SAME one (0, the canonical residue, or 1, what the crate returns)
+    if p = 1 then
+      some (" | ".intercalate ((rs e).map (·.1)) ++ " ;; " ++ " | ".intercalate ((rs (some 0)).map (·.2))
+        ++ " || " ++ " | ".intercalate ((rs (some 1)).map (·.2)))
+    else fam (rs e)
+  | "gcd" =>
+    let g := Nat.gcd a p
+    fam [(h (Gcd.uintGcd n a p), h g), (h (Gcd.uintGcd n a p), h g), (h (Gcd.uintGcdVartime n a p), h g),
+         (pLen (Gcd.boxedGcd (toLimbs n a) (toLimbs n p)), hl g),
+         (pLen (Gcd.boxedGcdVartime (toLimbs n a) (toLimbs n p)), hl g)]
+  | _ => none
+
 /-- `c15.l.<family>`: `Limb` routes next to `U64` -/
 def limbFam (name : String) (vs : List Nat) : Option String :=
   let h := natToHex
@@ -571,6 +683,22 @@ def dispatchC15 : Dispatch := fun op args =>
     | some vs => limbFam name vs
     | none => badArgs
   | ["c15", "const", name], vs => constFam name vs
+  | ["c15", "bm", name], [na, a, nb, b] =>
+    match na.toNat?, hexToNat? a, nb.toNat?, hexToNat? b with
+    | some na, some a, some nb, some b => mixedFam name na a nb b
+    | _, _, _, _ => badArgs
+  | ["c15", "inv_mod2k"], [n, a, k] =>
+    match n.toNat?, hexToNat? a, k.toNat? with
+    | some n, some a, some k => invFam "inv_mod2k" n a k
+    | _, _, _ => badArgs
+  | ["c15", "inv_odd_mod"], [n, a, m] =>
+    match n.toNat?, hexToNat? a, hexToNat? m with
+    | some n, some a, some m => invFam "inv_odd_mod" n a m
+    | _, _, _ => badArgs
+  | ["c15", "gcd"], [n, a, b] =>
+    match n.toNat?, hexToNat? a, hexToNat? b with
+    | some n, some a, some b => invFam "gcd" n a b
+    | _, _, _ => badArgs
   | ["c15", "select"], [n, a, b, c] =>
     match n.toNat?, hexToNat? a, hexToNat? b, c.toNat? with
     | some n, some a, some b, some c => shiftFam "select" n a [b, c]
